@@ -386,7 +386,7 @@ func c11DiffClass(shared, fresh string) string {
 // texts) along the shortest way.
 
 type c11SrvOp struct {
-	Kind string `json:"kind"` // openP closeP touchP openX closeX changeX saveX inlineP openXother
+	Kind string `json:"kind"` // openP closeP touchP openX closeX changeX saveX inlineP openXother writeX
 }
 
 type c11SrvCase struct {
@@ -408,7 +408,7 @@ func c11X(v int) string {
 
 func c11SrvOps() []c11SrvOp {
 	var out []c11SrvOp
-	for _, k := range []string{"openP", "closeP", "touchP", "openX", "closeX", "changeX", "saveX", "inlineP", "openXother"} {
+	for _, k := range []string{"openP", "closeP", "touchP", "openX", "closeX", "changeX", "saveX", "inlineP", "openXother", "writeX"} {
 		out = append(out, c11SrvOp{k})
 	}
 	return out
@@ -498,6 +498,14 @@ func c11SrvRun(c *core.Ctx, dir string, root bool, ops []c11SrvOp) (key string, 
 			}
 			editor = 1 - editor
 			s.DidChangeFull(xu, c11X(editor), 2)
+		case "writeX":
+			// X is not open: it is written by someone else and the server is told (didSave)
+			if editor >= 0 {
+				return "", false
+			}
+			disk = 1 - disk
+			_ = os.WriteFile(xx, []byte(c11X(disk)), 0o644)
+			s.DidSave(xu)
 		case "saveX":
 			if editor < 0 || editor == disk {
 				return "", false
